@@ -917,9 +917,10 @@ func (ex *Exec) loopsOf(fn *ssa.Function) *funcLoops {
 	for i, h := range heads {
 		fl.ByHead[h].Ord = i + 1
 	}
-	// fail closed when SSA loop heads and source loop statements disagree
+	// ordinals are those of the loop *statements* in source order. A loop statement that never
+	// iterates (every path through its body leaves it) has no SSA loop head; therefore each head is
+	// matched to the innermost for/range statement that contains all source positions of its blocks.
 	if syn := fn.Syntax(); syn != nil {
-		n := 0
 		var body ast.Node
 		switch d := syn.(type) {
 		case *ast.FuncDecl:
@@ -928,17 +929,46 @@ func (ex *Exec) loopsOf(fn *ssa.Function) *funcLoops {
 			body = d.Body
 		}
 		if body != nil {
+			var loops []ast.Node
 			ast.Inspect(body, func(x ast.Node) bool {
 				switch x.(type) {
 				case *ast.FuncLit:
 					return false
 				case *ast.ForStmt, *ast.RangeStmt:
-					n++
+					loops = append(loops, x)
 				}
 				return true
 			})
-			if n != len(heads) {
-				fl.Err = fmt.Sprintf("%d loop statements vs %d SSA loop heads", n, len(heads))
+			used := map[int]bool{}
+			for _, h := range heads {
+				ld := fl.ByHead[h]
+				lo, hi := token.NoPos, token.NoPos
+				for b := range ld.Blocks {
+					for _, in := range b.Instrs {
+						if p := in.Pos(); p.IsValid() {
+							if !lo.IsValid() || p < lo {
+								lo = p
+							}
+							if !hi.IsValid() || p > hi {
+								hi = p
+							}
+						}
+					}
+				}
+				best := -1
+				for i, l := range loops {
+					if lo.IsValid() && l.Pos() <= lo && hi < l.End() {
+						if best < 0 || (loops[best].End()-loops[best].Pos()) > (l.End()-l.Pos()) {
+							best = i
+						}
+					}
+				}
+				if best < 0 || used[best] {
+					fl.Err = fmt.Sprintf("cannot match SSA loop head b%d to a loop statement", h.Index)
+					continue
+				}
+				used[best] = true
+				ld.Ord = best + 1
 			}
 		}
 	}
